@@ -7,11 +7,13 @@ CONSTANTS
   MaxBg = 1
   MaxLosses = 1
   MaxLogins = 1
+  Env = {"exec", "peerin", "userdisc", "midburst"}
   MaxConnFail = 0
   FixAutoJoin = FALSE
   FixDistStopped = TRUE
   FixWatchdogStopped = TRUE
   FixTimersStopped = TRUE
+  FixStaleInit = TRUE
   FixSelfAwait = TRUE
   FixQueueOnce = TRUE
 INVARIANT TypeOK
